@@ -5,3 +5,4 @@ import Generated.GoFeed
 import Generated.GoAnsi
 import Generated.GoStyle
 import Generated.GoObject
+import Generated.GoConfig
